@@ -4,12 +4,16 @@
    Reading guide.  [run v cs (init_pair cs) es] is the pair of nodes after the event history
    [es] (any interleaving of starts, heartbeat sends / deliveries in any order / losses,
    one-sided peer-loss detections, interface notifications, local and remote switchover
-   halves) under configuration [cs]; [v] selects current or repaired behaviour for each of
-   the three recorded defects (Model.v).  Theorems with a hypothesis [fix_xx v = true] hold
-   for the repaired behaviour of that defect only; the matching [_refuted] example shows the
-   current code ([Defective]) violating the same statement.  Theorems without such a
-   hypothesis hold for every variant, in particular for the code as it is today. *)
-From OV Require Import Common.Base C10.Model C10.Proofs.
+   halves) under configuration [cs], every Manager call being one atomic step; [frun] (Fine.v)
+   is the same with every critical section of a call as one step and any number of calls in
+   progress.  [v] selects defective or repaired behaviour for each of the five recorded defects
+   (Model.v): [Head] = /repo HEAD (hb, if, fc repaired and committed; sa, ia recorded as known
+   findings with fix patches), [Repaired] = all five, [Defective] = the code before any fix.
+   A theorem with a hypothesis [fix_xx v = true] holds for the repaired behaviour of that
+   defect only; the matching [_refuted] example shows the defective behaviour violating it.
+   Theorems without such a hypothesis hold for every variant, HEAD included.
+   [ids_ok cs]: the two node ids are non-empty and different Go strings. *)
+From OV Require Import Common.Base C10.Model C10.Fine C10.Proofs C10.FineAtomic C10.FineProofs.
 Local Open Scope Z_scope.
 
 (* ---- election is deterministic (a function) and antisymmetric ---- *)
@@ -19,6 +23,34 @@ Theorem C10_election_antisym : forall ca cb na nb,
   wins ca na (c_id cb) = negb (wins cb nb (c_id ca)).
 Proof. exact wins_antisym. Qed.
 Print Assumptions C10_election_antisym.
+
+(* the hypotheses of the two theorems above (each side knows the other's current priority) are
+   established by ONE fresh heartbeat exchange, whatever each side believed before *)
+Theorem C10_exchange_refreshes_views : forall v cs w a b,
+  let r := xchg v cs w (a, b) in
+  n_eff (fst r) = n_eff a /\ n_eff (snd r) = n_eff b /\
+  n_pprio (fst r) = n_eff (snd r) /\ n_pprio (snd r) = n_eff (fst r).
+Proof. exact exchange_refreshes_views. Qed.
+Print Assumptions C10_exchange_refreshes_views.
+
+Theorem C10_election_antisym_after_exchange : forall v cs w a b,
+  c_id (fst cs) <> c_id (snd cs) ->
+  let r := xchg v cs w (a, b) in
+  wins (fst cs) (fst r) (c_id (snd cs)) = negb (wins (snd cs) (snd r) (c_id (fst cs))).
+Proof. exact antisym_after_exchange. Qed.
+Print Assumptions C10_election_antisym_after_exchange.
+
+(* with views one heartbeat behind both READY nodes can win (here: both still believe the other has
+   priority 50); this is the transient dual-active that C10_dual_active_resolves removes within one
+   fresh exchange *)
+Example C10_stale_views_both_win :
+  let ca := mkCfg [97%N] 100 false 0 0 in let cb := mkCfg [98%N] 200 false 0 0 in
+  let na := mkNode Ready 100 50 (Some Waiting) true 0 [] in
+  let nb := mkNode Ready 200 50 (Some Waiting) true 0 [] in
+  n_st (fst (elect ca na (c_id cb))) = Active /\ n_st (fst (elect cb nb (c_id ca))) = Active /\
+  pair_one_active (xchg Head (ca, cb) A (fst (elect ca na (c_id cb)), fst (elect cb nb (c_id ca)))) = true.
+Proof. vm_compute. repeat split. Qed.
+Print Assumptions C10_stale_views_both_win.
 
 Theorem C10_election_exactly_one : forall ca cb na nb,
   c_id ca <> c_id cb -> n_st na = Ready -> n_st nb = Ready ->
@@ -35,7 +67,7 @@ Theorem C10_heartbeat_depends_on_election_only : forall v c n m,
   fst (handle_hb v c n m) =
   mkNode (hb_core v (c_preempt c) (negb (n_pknown n)) (n_st n) (h_st m)
                   (wins_raw (c_id c) (n_eff n) (h_prio m) (h_id m)))
-         (n_eff n) (h_prio m) (Some (h_st m)) true (n_cnt n) (n_down n).
+         (n_eff n) (h_prio m) (Some (h_st m)) (nonempty (h_id m)) (n_cnt n) (n_down n).
 Proof. exact handle_hb_spec. Qed.
 Print Assumptions C10_heartbeat_depends_on_election_only.
 
@@ -47,10 +79,12 @@ Theorem C10_exchange_is_three_events : forall v cs w s,
 Proof. exact xchg_is_events. Qed.
 Print Assumptions C10_exchange_is_three_events.
 
-(* READY is never visible between two events, STANDBY_ALONE implies "peer unknown" *)
+(* when every Manager call is atomic: READY is never visible between two calls and STANDBY_ALONE implies
+   "peer unknown".  NOT true when calls interleave: see C10_fine_quiescent_not_ready (what survives) and
+   C10_fine_standby_alone_known_peer_refuted (what does not) *)
 Theorem C10_reachable_well_formed : forall v cs es w,
   let n := node_of w (run v cs (init_pair cs) es) in
-  n_st n <> Ready /\ (n_st n <> Init -> n_ok n = true).
+  n_st n <> Ready /\ (n_st n <> Init -> n_ok v n = true).
 Proof. intros v cs es w; split; [apply ready_is_transient | apply run_started_ok]. Qed.
 Print Assumptions C10_reachable_well_formed.
 
@@ -58,8 +92,10 @@ Print Assumptions C10_reachable_well_formed.
 (* After ANY history, if a node that is STANDBY or STANDBY_ALONE is active after one more event,
    that event is: a switchover request on that node (forced, when STANDBY_ALONE); a down
    notification for one of its tracked interfaces while STANDBY_ALONE; its own peer-loss
-   detection while STANDBY with a non-zero interface down count; or a heartbeat from the peer.
-   Holds for every variant. *)
+   detection while STANDBY with a non-zero interface down count; or a heartbeat [m] from the peer
+   against whose priority it wins the election (from STANDBY additionally: preempt is configured, or
+   the heartbeat reports the peer STANDBY too).  Holds for every variant.  The code cannot tell a
+   heartbeat sent before the loss from a fresh one (C10_stale_heartbeat_repromotes). *)
 Theorem C10_no_self_promotion : forall v cs es e w,
   let s := run v cs (init_pair cs) es in
   let st := n_st (node_of w s) in
@@ -70,11 +106,22 @@ Theorem C10_no_self_promotion : forall v cs es e w,
   | ESwRemote w' => w' = w /\ st = Standby
   | EIf w' k d => w' = w /\ d = true /\ tracked (cfg_of w cs) k = true /\ st = StandbyAlone
   | EPeerLost w' => w' = w /\ st = Standby /\ 0 < n_cnt (node_of w s)
-  | EDeliver w' i => w' = w /\ queue_to w s <> []
+  | EDeliver w' i =>
+      w' = w /\ exists m, nth_error (queue_to w s) (i mod length (queue_to w s))%nat = Some m /\
+                         wins_raw (c_id (cfg_of w cs)) (n_eff (node_of w s)) (h_prio m) (h_id m) = true /\
+                         (st = Standby -> c_preempt (cfg_of w cs) = true \/ (fix_hb v = true /\ h_st m = Standby))
   | _ => False
   end.
 Proof. exact no_self_promotion_run. Qed.
 Print Assumptions C10_no_self_promotion.
+
+(* the same for ANY pair state (also the ones only reachable when calls interleave) *)
+Theorem C10_no_self_promotion_any_state : forall v cs s e w,
+  (n_st (node_of w s) = Standby \/ n_st (node_of w s) = StandbyAlone) ->
+  is_active (n_st (node_of w (fst (step v cs s e)))) = true ->
+  promotion_cause v cs s w e.
+Proof. exact promotion_justified. Qed.
+Print Assumptions C10_no_self_promotion_any_state.
 
 (* ... and with the interface-count repair the down count is the number of tracked interfaces
    that the notifications seen so far say are down, so a STANDBY that loses its peer becomes
@@ -88,7 +135,7 @@ Theorem C10_standby_peer_lost : forall v cs es w,
 Proof. exact standby_peer_lost_spec. Qed.
 Print Assumptions C10_standby_peer_lost.
 
-Definition cs_track : cfgs := (mkCfg 1 100 false 50 2, mkCfg 2 200 false 50 2).
+Definition cs_track : cfgs := (mkCfg [49%N] 100 false 50 2, mkCfg [50%N] 200 false 50 2).
 Definition to_standby_a : list ev := [EStart A; EStart B; ESend A; EDeliver B 0; EDeliver A 0].
 (* current code: down, deleted, up for ONE interface leave a phantom count; the STANDBY node
    then promotes itself on peer loss although no tracked interface is down *)
@@ -102,7 +149,7 @@ Print Assumptions C10_standby_peer_lost_refuted.
 
 (* ---- dual active resolves within one heartbeat exchange ---- *)
 Theorem C10_dual_active_resolves : forall v cs a b,
-  fix_fc v = true -> c_id (fst cs) <> c_id (snd cs) ->
+  fix_fc v = true -> ids_ok cs ->
   is_active (n_st a) = true -> is_active (n_st b) = true ->
   pair_one_active (xchg v cs A (a, b)) = true /\
   pair_one_active (xchg v cs B (a, b)) = true /\
@@ -112,13 +159,16 @@ Print Assumptions C10_dual_active_resolves.
 
 (* every variant, the current code included: two exchanges always suffice *)
 Theorem C10_dual_active_resolves_in_two : forall v cs a b w1 w2,
-  c_id (fst cs) <> c_id (snd cs) ->
+  ids_ok cs ->
   is_active (n_st a) = true -> is_active (n_st b) = true ->
   pair_one_active (xchgs v cs [w1; w2] (a, b)) = true.
 Proof. exact dual_active_resolves_two. Qed.
 Print Assumptions C10_dual_active_resolves_in_two.
 
-Definition cs_plain : cfgs := (mkCfg 1 100 false 0 0, mkCfg 2 200 false 0 0).
+Definition cs_plain_ab : cfgs := (mkCfg [49%N] 200 false 0 0, mkCfg [50%N] 100 false 0 0).
+(* A (200) ACTIVE, B (100) STANDBY *)
+Definition to_standby_b : list ev := [EStart A; EStart B; ESend A; EDeliver B 0; EDeliver A 0].
+Definition cs_plain : cfgs := (mkCfg [49%N] 100 false 0 0, mkCfg [50%N] 200 false 0 0).
 (* current code: A forced out of STANDBY_ALONE while B is ACTIVE_SOLO; a complete exchange
    initiated by B leaves both ACTIVE *)
 Example C10_dual_active_resolves_refuted :
@@ -133,7 +183,7 @@ Print Assumptions C10_dual_active_resolves_refuted.
 (* with the dual-standby repair: after any history that has started both nodes, ANY three fresh
    heartbeat exchanges leave exactly one active node, and further exchanges change neither state *)
 Theorem C10_no_stable_headless : forall v cs es w1 w2 w3,
-  fix_hb v = true -> c_id (fst cs) <> c_id (snd cs) ->
+  fix_hb v = true -> ids_ok cs ->
   let s := run v cs (init_pair cs) es in
   n_st (p_a s) <> Init -> n_st (p_b s) <> Init ->
   let r := xchgs v cs [w1; w2; w3] (p_a s, p_b s) in
@@ -143,7 +193,7 @@ Print Assumptions C10_no_stable_headless.
 
 (* the same for every well-formed pair, reachable or not *)
 Theorem C10_no_stable_headless_all_states : forall v cs a b w1 w2 w3,
-  fix_hb v = true -> c_id (fst cs) <> c_id (snd cs) -> n_ok a = true -> n_ok b = true ->
+  fix_hb v = true -> ids_ok cs -> n_ok v a = true -> n_ok v b = true ->
   let r := xchgs v cs [w1; w2; w3] (a, b) in
   pair_one_active r = true /\ absn (xchg v cs A r) = absn r /\ absn (xchg v cs B r) = absn r.
 Proof. exact converges. Qed.
@@ -152,14 +202,14 @@ Print Assumptions C10_no_stable_headless_all_states.
 (* every fix-point of the fresh exchanges (both directions) between nodes in contact has
    exactly one active node *)
 Theorem C10_fixpoint_has_active : forall v cs a b,
-  fix_hb v = true -> c_id (fst cs) <> c_id (snd cs) ->
-  n_ok a = true -> n_ok b = true -> n_pknown a = true -> n_pknown b = true ->
+  fix_hb v = true -> ids_ok cs ->
+  n_ok v a = true -> n_ok v b = true -> n_pknown a = true -> n_pknown b = true ->
   (forall w, n_st (fst (xchg v cs w (a, b))) = n_st a /\ n_st (snd (xchg v cs w (a, b))) = n_st b) ->
   pair_one_active (a, b) = true.
 Proof. exact fixpoint_has_active. Qed.
 Print Assumptions C10_fixpoint_has_active.
 
-Definition cs_design : cfgs := (mkCfg 1 200 false 50 3, mkCfg 2 100 false 50 3).
+Definition cs_design : cfgs := (mkCfg [49%N] 200 false 50 3, mkCfg [50%N] 100 false 50 3).
 (* current code (DESIGN.md section 6): priorities 200/100, no preempt, the active node is
    decremented to 50, loses its peer one-sidedly, re-elects and loses: both STANDBY, in contact,
    not moved by exchanges in either direction *)
@@ -168,7 +218,7 @@ Example C10_no_stable_headless_refuted :
                              ESend B; EDeliver A 0; EDeliver B 0] in
   let s := run Defective cs_design (init_pair cs_design) es in
   let a := p_a s in let b := p_b s in
-  n_ok a = true /\ n_ok b = true /\ n_pknown a = true /\ n_pknown b = true /\
+  n_ok Defective a = true /\ n_ok Defective b = true /\ n_pknown a = true /\ n_pknown b = true /\
   n_st a = Standby /\ n_st b = Standby /\ n_eff a = 50 /\
   absn (xchg Defective cs_design A (a, b)) = absn (a, b) /\
   absn (xchg Defective cs_design B (a, b)) = absn (a, b) /\
@@ -194,12 +244,135 @@ Example C10_effective_priority_refuted :
 Proof. vm_compute. repeat split; intros; discriminate. Qed.
 Print Assumptions C10_effective_priority_refuted.
 
+(* ---- stale heartbeats (observation, not repaired: see notes/C10.md "Audit response") ---- *)
+(* A (priority 200) is STANDBY after an operator switchover, B (100) is ACTIVE and has a heartbeat in flight.
+   A loses its peer (STANDBY_ALONE); the heartbeat sent BEFORE the loss arrives afterwards: A re-elects,
+   wins and is ACTIVE next to B.  HeartbeatMessage.Sequence / TimestampNs are never compared, so the code
+   cannot tell this heartbeat from a fresh one; C10_dual_active_resolves then removes the dual-active pair
+   within one fresh exchange. *)
+Example C10_stale_heartbeat_repromotes :
+  let cs := (mkCfg [49%N] 200 false 0 0, mkCfg [50%N] 100 false 0 0) in
+  let es := [EStart A; EStart B; ESend A; EDeliver B 0; EDeliver A 0; ESwLocal A false; ESwRemote B;
+             ESend B; EPeerLost A] in
+  let s := run Head cs (init_pair cs) es in
+  n_st (p_a s) = StandbyAlone /\ n_st (p_b s) = Active /\
+  n_st (p_a (fst (step Head cs s (EDeliver A 0)))) = Active /\
+  pair_one_active (xchg Head cs B (p_a (fst (step Head cs s (EDeliver A 0))), p_b s)) = true.
+Proof. vm_compute. repeat split. Qed.
+Print Assumptions C10_stale_heartbeat_repromotes.
+
+(* ==== every critical section one step (Fine.v): any number of Manager calls in progress ==== *)
+
+(* a call whose critical sections run without interruption is exactly the atomic handler of Model.v,
+   so every [run] history is an [frun] history *)
+Theorem C10_fine_call_atomic : forall v c n,
+  (forall m, trun 8 v c n (THb0 m) = handle_hb v c n m) /\
+  trun 8 v c n TLost0 = handle_peer_lost n /\
+  (forall k d, trun 8 v c n (TIf0 k d) = handle_if v c n k d).
+Proof. intros v c n. split; [intros m; apply hb_atomic | split; [apply lost_atomic | intros k d; apply if_atomic]]. Qed.
+Print Assumptions C10_fine_call_atomic.
+
+(* READY is visible while calls interleave, but it is always owned by a heartbeat handler that is between
+   PeerDiscovered and Elect: whenever no call is in progress on a node its group is not READY (all variants) *)
+Theorem C10_fine_quiescent_not_ready : forall v cs es w,
+  thrs_of w (frun v cs (finit cs) es) = [] ->
+  n_st (node_of w (f_p (frun v cs (finit cs) es))) <> Ready.
+Proof. exact quiescent_not_ready. Qed.
+Print Assumptions C10_fine_quiescent_not_ready.
+
+(* which critical section can turn a non-active group active, in ANY node state (all variants):
+   Elect from READY when it wins; PeerHeartbeatUpdate from STANDBY when it wins (preempt, or peer STANDBY);
+   PeerLost in WAITING (the node came up alone); TrackerPromote from STANDBY_ALONE *)
+Theorem C10_fine_promotion_causes : forall v c n t,
+  is_active (n_st n) = false -> is_active (n_st (fst (fst (tstep v c n t)))) = true ->
+  match t with
+  | THbElect m => n_st n = Ready /\ wins c n (h_id m) = true
+  | THbUpd m => n_st n = Standby /\ wins c (set_peer n (h_prio m) (h_st m)) (h_id m) = true /\
+                (c_preempt c = true \/ (fix_hb v = true /\ h_st m = Standby))
+  | TLostSm => n_st n = Waiting
+  | TLostPromote | TIfPromote => n_st n = StandbyAlone
+  | _ => False
+  end.
+Proof. exact tstep_promotion. Qed.
+Print Assumptions C10_fine_promotion_causes.
+
+(* ... and a TrackerPromote section is only ever reached from a tracked interface going down (having seen
+   STANDBY_ALONE) or from the peer-loss call that itself moved STANDBY -> STANDBY_ALONE and read a positive
+   down count *)
+Theorem C10_fine_promotion_provenance : forall v c n t,
+  match snd (tstep v c n t) with
+  | Some TLostPromote => t = TLostCnt /\ 0 < n_cnt n
+  | Some TLostCnt => t = TLostSm /\ n_st n = Standby
+  | Some TIfPromote => t = TIfChk /\ n_st n = StandbyAlone
+  | Some TIfChk => (exists k, t = TIf0 k true /\ tracked c k = true) \/ (exists delta, t = TIfAdj true delta)
+  | Some (TIfAdj d delta) => exists k, t = TIf0 k d /\ tracked c k = true
+  | _ => True
+  end.
+Proof. exact thr_provenance. Qed.
+Print Assumptions C10_fine_promotion_provenance.
+
+(* HEAD: handlePeerLost parked between "peerNodeID = ''" and sm.PeerLost while a heartbeat is handled:
+   B ends STANDBY_ALONE with a known peer, no call in progress.  After a switchover of A the pair is
+   STANDBY / STANDBY_ALONE and no heartbeat exchange moves it: headless for ever.
+   (replayed on the real code by the forced-overlap harness: corpus/C10/overlap.case) *)
+Example C10_fine_standby_alone_known_peer_refuted :
+  let es := map FCoarse to_standby_b ++
+            [FLost B; FMicro B 0; FCoarse (ESend A); FCoarse (EDeliver B 0); FMicro B 0; FMicro B 0; FCoarse (EDeliver A 0);
+             FCoarse (ESwLocal A false); FCoarse (ESwRemote B)] in
+  let s := frun Head cs_plain_ab (finit cs_plain_ab) es in
+  let a := p_a (f_p s) in let b := p_b (f_p s) in
+  quiescent s = true /\ n_st a = Standby /\ n_st b = StandbyAlone /\ n_pknown b = true /\
+  absn (xchg Head cs_plain_ab A (a, b)) = absn (a, b) /\
+  absn (xchg Head cs_plain_ab B (a, b)) = absn (a, b) /\
+  absn (xchgs Head cs_plain_ab [A; B; A; B; A; B] (a, b)) = absn (a, b) /\
+  (* repaired: the same schedule, then three exchanges *)
+  (let s' := frun Repaired cs_plain_ab (finit cs_plain_ab) es in
+   pair_one_active (xchgs Repaired cs_plain_ab [A; A; A] (p_a (f_p s'), p_b (f_p s'))) = true).
+Proof. vm_compute. repeat split. Qed.
+Print Assumptions C10_fine_standby_alone_known_peer_refuted.
+
+(* with the STANDBY_ALONE repair (fix_sa) the pair cannot stay headless after ANY interleaving of critical
+   sections: whenever no call is in progress and both nodes are started, any three fresh exchanges leave
+   exactly one active node and a pair no exchange moves *)
+Theorem C10_fine_no_stable_headless : forall v cs es w1 w2 w3,
+  fix_hb v = true -> fix_sa v = true -> ids_ok cs ->
+  let s := frun v cs (finit cs) es in
+  quiescent s = true -> n_st (p_a (f_p s)) <> Init -> n_st (p_b (f_p s)) <> Init ->
+  let r := xchgs v cs [w1; w2; w3] (p_a (f_p s), p_b (f_p s)) in
+  pair_one_active r = true /\ absn (xchg v cs A r) = absn r /\ absn (xchg v cs B r) = absn r.
+Proof. exact fine_converges. Qed.
+Print Assumptions C10_fine_no_stable_headless.
+
+(* with AdjustPriority inside the m.mu section (fix_ia): under every interleaving, at every moment, the
+   effective priority is the value AdjustPriority computes from the CURRENT down count *)
+Theorem C10_fine_priority_matches_count : forall v cs es w,
+  fix_ia v = true -> 0 <= c_prio (fst cs) < 2147483648 -> 0 <= c_prio (snd cs) < 2147483648 ->
+  let n := node_of w (f_p (frun v cs (finit cs) es)) in
+  n_eff n = eff_code (cfg_of w cs) (n_cnt n).
+Proof. exact fine_priority_matches_count. Qed.
+Print Assumptions C10_fine_priority_matches_count.
+
+(* HEAD: two interface events whose m.mu sections run in one order and whose AdjustPriority calls run in
+   the other: both interfaces down, no call in progress, priority decremented once
+   (reproduced on the real code by stress only: 3 of 400000 overlapping pairs, notes/C10.md) *)
+Example C10_fine_priority_matches_count_refuted :
+  let es := [FIf A 0 true; FIf A 1 true; FMicro A 0; FMicro A 1; FMicro A 1; FMicro A 0; FMicro A 0; FMicro A 0] in
+  let s := frun Head cs_design (finit cs_design) es in
+  quiescent s = true /\ n_cnt (p_a (f_p s)) = 2 /\ n_eff (p_a (f_p s)) = 150 /\
+  eff_code (fst cs_design) 2 = 100 /\
+  n_eff (p_a (f_p (frun Repaired cs_design (finit cs_design) es))) = 100.
+Proof. vm_compute. repeat split. Qed.
+Print Assumptions C10_fine_priority_matches_count_refuted.
+
 (* ---- non-vacuity ---- *)
 Example C10_nonvacuous :
   (* antisymmetry: equal priorities, decided by node id *)
   (let a := mkNode Ready 100 100 None true 0 [] in
    c_id (fst cs_plain) <> c_id (snd cs_plain) /\ n_pprio a = n_eff a /\
-   wins (fst cs_plain) a 2 = true /\ wins (snd cs_plain) a 1 = false) /\
+   wins (fst cs_plain) a [50%N] = true /\ wins (snd cs_plain) a [49%N] = false /\
+   (* Go string order: "10" < "9", "node-10" < "node-2", "B" < "a", "bng" < "bng-1" *)
+   str_ltb [49;48]%N [57%N] = true /\ str_ltb [66%N] [97%N] = true /\ str_ltb [98;110;103]%N [98;110;103;45;49]%N = true /\
+   ids_ok cs_plain /\ ids_ok cs_design) /\
   (* repaired behaviour on the three defect witnesses *)
   (let es := to_standby_a ++ [EIf A 0 true; EIf A 1 true; EIf A 2 true; EPeerLost A;
                               ESend B; EDeliver A 0] in
@@ -214,7 +387,7 @@ Example C10_nonvacuous :
    n_eff (p_a (run Repaired cs_design (init_pair cs_design) es)) = 150 /\ spec_eff (fst cs_design) A es = 150) /\
   (* a fix-point with one active node; promotions with each admissible cause *)
   (let s := run Repaired cs_plain (init_pair cs_plain) to_standby_a in
-   n_ok (p_a s) = true /\ n_pknown (p_a s) = true /\ n_pknown (p_b s) = true /\
+   n_ok Repaired (p_a s) = true /\ n_pknown (p_a s) = true /\ n_pknown (p_b s) = true /\
    absn (xchg Repaired cs_plain A (p_a s, p_b s)) = absn (p_a s, p_b s) /\
    absn (p_a s, p_b s) = (Standby, true, Active, true) /\
    n_st (p_a (fst (step Repaired cs_plain s (EPeerLost A)))) = StandbyAlone /\
